@@ -15,7 +15,7 @@ def main():
             continue
         prop, k = patch.split(os.sep)[-3:-1]
         done = False
-        for base in subprocess.check_output(["git", "-C", "/repo", "log", "--format=%H", "-12"]).decode().split()[1:]:
+        for base in subprocess.check_output(["git", "-C", "/repo", "log", "--format=%H", "-40"]).decode().split()[1:]:
             tmp = tempfile.mkdtemp(prefix="refresh.")
             wt = os.path.join(tmp, "wt")
             try:
